@@ -8,10 +8,11 @@
 
      ok <step> / <step> / …          <step> = <result> <D0|D1> # <entry> <entry> …
 
-   `<result>`: `r<n>` (n FmtStr results appended to the pool), `t<text>`, `i<int>`, `E:<kind>`;
+   `<result>`: `r<n>` (n FmtStr results appended to the pool), `t<text>`, `T<terminal string>` (str / color_str),
+   `i<int>`, `b<0|1>`, `o`, `E:<kind>`, `G:raised:<kind>` (item assignment / attribute-dict mutator);
    `D1` = the operation also passes the checked interpreter (discipline) on this heap;
    one `<entry>` per pool value AFTER the step:
-     <fmt id>:<list id>:<chunk ids joined by .>:<4 memo flags uni,len,s,width>:<color_str flag per chunk>:<atts-object id per chunk>!<fmt>!<render>!<len>
+     <fmt id>:<list id>:<chunk ids joined by .>:<4 memo flags uni,len,s,width>:<color_str flag per chunk>:<atts-object id per chunk>!<fmt>!<render>!<len>!<w<width>|E:kind>
    A dangling reference answers `E:bad-ref`; an undecodable operation, a bad pool index, an attribute-dict
    method name outside Generated.dictMutators, or a call outside the model's domain (`splice` with
    end < start) answers `bad-op`.
@@ -125,7 +126,7 @@ def decOp (pool : List Nat) (args : List String) : Option Op :=
 
 def flag (b : Bool) : String := if b then "1" else "0"
 
-def encEntry (h : Heap) (r : Nat) : Option String := do
+def encEntry (u : UEnv) (h : Heap) (r : Nat) : Option String := do
   let f ← h.fmts[r]?
   let cs ← h.lists[f.chunks]?
   let v ← h.value r
@@ -135,7 +136,8 @@ def encEntry (h : Heap) (r : Nat) : Option String := do
     String.join (objs.map fun o => flag o.colorStr.isSome) ++ ":" ++
     -- identity of each run's attribute-dict object: one per run object (`Chunk.__init__` builds a new one)
     ".".intercalate (cs.map toString) ++
-    "!" ++ encFmt v ++ "!" ++ encText (render v) ++ "!" ++ toString (len v))
+    "!" ++ encFmt v ++ "!" ++ encText (render v) ++ "!" ++ toString (len v) ++ "!" ++
+    (match fmtWidth u v with | .ok w => "w" ++ toString w | .error e => "E:" ++ e.name))
 
 def encRes : Res → String
   | .refs rs => "r" ++ toString rs.length
@@ -168,10 +170,15 @@ def runSteps (u : UEnv) : List (List String) → List Nat → Heap → Except St
     let pool' := match res with
       | .refs rs => pool ++ rs
       | _ => pool
-    let entries ← match pool'.mapM (encEntry h') with
+    let entries ← match pool'.mapM (encEntry u h') with
       | some es => pure es
       | none => throw "E:bad-ref"
-    let step := encRes res ++ " D" ++ flag disciplined ++ " # " ++ " ".intercalate entries
+    -- terminal strings are tagged `T` (compared by what they DISPLAY at property level), guard outcomes `G:raised:<kind>`
+    let resS := match op, res with
+      | .obsStr _, .text t | .obsColor _ _, .text t => "T" ++ encText t
+      | .setitem _, .err e | .attsMutate _ _ _, .err e => "G:raised:" ++ e.name
+      | _, _ => encRes res
+    let step := resS ++ " D" ++ flag disciplined ++ " # " ++ " ".intercalate entries
     let more ← runSteps u rest pool' h'
     pure (step :: more)
 
